@@ -361,7 +361,76 @@ def _check_one(recv, pop, calls, sel, rec=None, prelude=None):
                  sample=lambda: {"population": pop, "selector": text, "calls": calls[:6], "events": want[:6]})
 
 
+PRIVATE_SRC = '''
+class Outer:
+    class Inner:
+        def __init__(self, k):
+            self.__n = k
+
+        def im(self, v):
+            w = v + self.__n
+            return w
+
+    def __init__(self, k):
+        self.__m = k
+        self.inner = Outer.Inner(k + 1)
+
+    def om(self, v):
+        def helper(z):
+            w = z + self.__m
+            return w
+
+        self.last = helper
+        w = helper(v) + 1
+        return w
+'''
+
+
+def check_private(target, k, v, rec=None):
+    """Private (name-mangled) attributes in a method of a nested class, in a method defining a
+    helper, and in that helper (a function nested in a method): probing must neither break the
+    call nor miss the binding."""
+    from ptera import probing
+
+    _, glb = PR.load(PRIVATE_SRC, name="Outer")
+    o = glb["Outer"](k)
+    o.om(0)
+    if target == "inner":
+        sel, env, call, want_w = "Outer.Inner.im > w", {"Outer": glb["Outer"]}, (lambda: o.inner.im(v)), v + k + 1
+    elif target == "outer":
+        sel, env, call, want_w = "Outer.om > w", {"Outer": glb["Outer"]}, (lambda: o.om(v)), v + k + 1
+    else:
+        sel, env, call, want_w = "h > w", {"h": o.last}, (lambda: o.last(v)), v + k
+    got = []
+    try:
+        with probing(sel, env=env) as p:
+            p.subscribe(lambda d: got.append(d["w"]))
+            res = call()
+    except BaseException as e:
+        if isinstance(e, (KeyboardInterrupt, SystemExit)):
+            raise
+        HY.force_global_clean()
+        raise PropertyViolation("run", f"private names, probing({sel!r}) with k={k} v={v}: raised {HY.describe_exc(e)}",
+                                extra={"bucket": "private:" + HY.exc_bucket(e)})
+    finally:
+        if HY.global_state_problems():
+            HY.force_global_clean()
+        PR.forget(glb)
+    if res != want_w or got != [want_w]:
+        raise PropertyViolation("events", f"private names, probing({sel!r}) with k={k} v={v}: returned {res}, events "
+                                          f"{got}; expected {want_w} and [{want_w}]")
+    if rec is not None:
+        rec.case(h64(repr(("private", target, k, v))), True, {"path:private-" + target},
+                 sample=lambda: {"selector": sel, "k": k, "v": v, "events": [want_w]})
+
+
 def replay(payload):
+    if payload.get("mode") == "private":
+        try:
+            check_private(payload["target"], payload["k"], payload["v"])
+        except PropertyViolation as v:
+            return [{"clause": v.clause, "detail": v.detail}]
+        return []
     try:
         check_case(payload["recv"], [tuple(p) for p in payload["pop"]], [tuple(c) for c in payload["calls"]],
                    tuple(payload["sel"]))
@@ -375,6 +444,9 @@ def strategy():
 
     @st.composite
     def cases(draw):
+        if draw(st.integers(0, 19)) == 0:
+            return ("private", draw(st.sampled_from(["inner", "outer", "helper"])), draw(st.integers(0, 5)),
+                    draw(st.integers(0, 5)))
         recv = draw(st.sampled_from(["self", "me"]))
         n = draw(st.integers(2, 5))
         pop = [(draw(st.sampled_from(CLASSES + ["EqAll", "EqNoHash", "EqAll"])), draw(st.integers(0, 3))) for _ in range(n)]
@@ -422,11 +494,16 @@ def shard(cfg):
     rec = Recorder()
 
     def body(case):
+        if case[0] == "private":
+            return check_private(*case[1:], rec=rec)
         check_case(*case, rec=rec)
 
     n, v, herr = hyp_search(strategy(), body, seed=cfg["seed"] * 1000 + cfg["shard"], max_examples=cfg["examples"], case_cpu_s=30.0)
     res = rec.result()
-    if v is not None:
+    if v is not None and v.case[0] == "private":
+        res["violations"] = [violation_record(PROPERTY, v, {"mode": "private", "target": v.case[1], "k": v.case[2],
+                                                            "v": v.case[3]})]
+    elif v is not None:
         recv, pop, calls, sel = v.case
         res["violations"] = [violation_record(PROPERTY, v, {"recv": recv, "pop": pop, "calls": calls, "sel": list(sel)})]
     if herr:
